@@ -63,9 +63,6 @@ class SimTransport:
     def getHost(self):
         return address.UNIXAddress('/sim/host')
 
-    def sendFileDescriptor(self, fd):
-        self._ev('fd', fd)
-
     def _ev(self, kind, payload):
         self.log.append((kind, payload))
         if self.on_event:
@@ -82,11 +79,18 @@ class SimTransport:
 
 
 @implementer(interfaces.IUNIXTransport)
-class SimUnixTransport(SimTransport):
+class _DescriptorPassing:
+    """Only UNIX transports can pass descriptors (twisted's TCP transports have no sendFileDescriptor)."""
+
+    def sendFileDescriptor(self, fd):
+        self._ev('fd', fd)
+
+
+class SimUnixTransport(_DescriptorPassing, SimTransport):
     unix = True
 
 
-class SimWrappedUnixTransport(SimTransport):
+class SimWrappedUnixTransport(_DescriptorPassing, SimTransport):
     """A UNIX transport seen through a wrapper (twisted.protocols.policies.ProtocolWrapper and friends forward the real
     transport's interfaces per INSTANCE, with directlyProvides): the class itself declares nothing."""
     unix = True
